@@ -20,7 +20,9 @@ Record xdesc := {
   x_srx : Z;     (* receive stamp taken by the peer for this copy, on the peer's clock *)
   x_stx : Z;     (* transmit stamp of the reply, on the peer's clock *)
   x_theta : Z;   (* peer clock - client clock during this exchange *)
-  x_hi3 : Z }.   (* client clock (real time) after the reply had been consumed *)
+  x_hi3 : Z;     (* client clock (real time) after the reply had been consumed *)
+  x_fb : bool }. (* the client took t0 and/or t3 of this exchange from its clock after the fact
+                    (kernel timestamp not readable): known finding clock-fallback-t0 *)
 
 Definition rounding_slack : Z := 6.   (* 2*|off - theta| <= rtd + 6, i.e. |off - theta| <= rtd/2 + 3 ns *)
 
@@ -37,8 +39,21 @@ Definition stamps_in (t0 t1 t2 t3 : Z) (x : xdesc) : bool :=
 Definition bound_ok (off t0 t1 t2 t3 theta : Z) : bool :=
   2 * Z.abs (off - theta) <=? ((t3 - t0) - (t2 - t1)) + rounding_slack.
 
+(* an exchange whose client stamps are late clock readings (recorded finding): the
+   stamps still have to belong to this exchange - t1, t2 exactly, t0 and t3
+   between the client's clock reading before the send and the end of the
+   attempt - and the offset may be off by at most the length of the attempt *)
+Definition stamps_in_fb (t0 t1 t2 t3 : Z) (x : xdesc) : bool :=
+  (x_lo0 x - 1 <=? t0) && (t0 <=? x_hi3 x) &&
+  (x_srx x - 1 <=? t1) && (t1 <=? x_srx x) &&
+  (x_stx x - 1 <=? t2) && (t2 <=? x_stx x) &&
+  (x_lo0 x - 1 <=? t3) && (t3 <=? x_hi3 x).
+Definition bound_ok_fb (off : Z) (x : xdesc) : bool :=
+  Z.abs (off - x_theta x) <=? (x_hi3 x - x_lo0 x) + rounding_slack.
+
 Definition C03_ok1 (off t0 t1 t2 t3 : Z) (x : xdesc) : bool :=
-  stamps_in t0 t1 t2 t3 x && bound_ok off t0 t1 t2 t3 (x_theta x).
+  if x_fb x then stamps_in_fb t0 t1 t2 t3 x && bound_ok_fb off x
+  else stamps_in t0 t1 t2 t3 x && bound_ok off t0 t1 t2 t3 (x_theta x).
 
 Definition C03_ok (off t0 t1 t2 t3 : Z) (xs : list xdesc) : bool :=
   existsb (C03_ok1 off t0 t1 t2 t3) xs.
